@@ -67,6 +67,9 @@ class FakeSocket:
         self.addr = None
         self.mode = 'exact'    # meaning of sendscript entries >= 0, see send()
 
+    def __repr__(self):
+        return '<FakeSocket %s fd=%d>' % (self.name, self.fd)
+
     # --- socket API subset used by proxy.py ---------------------------------
     def fileno(self):
         return -1 if self.closed else self.fd
